@@ -442,16 +442,13 @@ def run(ctx):
                        'x random tag sets x formats; non-trivial = at least one facet with orientation flag 1 / at least '
                        'two tagged facets; distinct by content hash')
     ctx.ensure_static()
-    gen_ok = True
-    try:
-        txt, tm, mt = T.translate()
-        ctx.write_gen('C17Gen', txt)
-        ctx.extra['type_mesh_mapping'] = tm
-    except TranslateError as e:
-        ctx.broke('translator', 'c17_translate.translate(mesh.py, io/meshio.py)', e)
-        gen_ok = False
-    if gen_ok:
-        ctx.compile_dyn(['gen/C17Gen.v'] + ctx.copy_dyn())
+    txt, tm, mt, errors = T.translate()
+    for name, err in errors:
+        ctx.broke('translator', 'c17_translate: ' + name, err)
+    ctx.write_gen('C17Gen', txt)
+    ctx.extra['type_mesh_mapping'] = tm
+    gen_ok = not errors
+    ctx.compile_dyn(['gen/C17Gen.v'] + ctx.copy_dyn())
     ctx.prove()
     try:
         correspondence(ctx, gen_ok)
